@@ -58,6 +58,12 @@ class _Filter:
         return getattr(self._c, n)
 
 
+def json_ty(let_node):
+    """type text of the value a `let` destructures, as far as the HIR-lite records it (scrutinee type of the `?` match inside)"""
+    tys = [z.get("sty") or "" for z in find_all(let_node.get("init") or {}, lambda z: z.get("k") == "match")]
+    return " ".join(tys) + " (datalog::origin::Origin, datalog::Fact)" if any("datalog::origin::Origin, datalog::Fact" in t for t in tys) else " ".join(tys)
+
+
 def check(fb, ctx):
     ctx.explanation = (
         "MATCH: the matcher of a rule predicate against a fact (match_preds) is a table over every pair of Term variants: "
@@ -213,6 +219,19 @@ def shared_rules(fb, ctx, pid, only=None):
                         binds = hirq.bindings(arm["pat"])
                         args_ok = len(e["args"]) == 2 and is_local(strip(e["args"][0])) and is_local(strip(e["args"][1])) and {strip(e["args"][0])["res"]["name"], strip(e["args"][1])["res"]["name"]} <= set(binds)
                         ok = ok or args_ok
+    if not ok:
+        # equivalent form: `let (origin, fact) = res.map_err(..)?; new_facts.insert(&origin, fact);` - the error leaves through `?`,
+        # the insertion is the next unconditional statement of the same block
+        for blk in find_all(loops[0], lambda z: z.get("k") == "block" and z.get("stmts")):
+            st = blk["stmts"] + ([blk["expr"]] if blk.get("expr") else [])
+            for i_, s_ in enumerate(st):
+                if isinstance(s_, dict) and s_.get("k") == "let" and isinstance(s_.get("pat"), dict) and s_["pat"].get("k") == "tuple" and len(s_["pat"]["pats"]) == 2 and all(q.get("k") == "bind" for q in s_["pat"]["pats"]) and s_.get("init") is not None and find_all(s_["init"], lambda z: z.get("k") == "match" and str(z.get("src", "")).startswith("TryDesugar")) and "(datalog::origin::Origin, datalog::Fact)" in json_ty(s_):
+                    ids_ = [q["id"] for q in s_["pat"]["pats"]]
+                    for nxt in st[i_ + 1:]:
+                        e = nxt.get("e") if isinstance(nxt, dict) and nxt.get("k") == "semi" else nxt
+                        e = strip(e) if e else e
+                        if isinstance(e, dict) and e.get("k") == "mcall" and (e.get("def") or {}).get("path", "").endswith("FactSet::insert") and len(e["args"]) == 2 and hirq.is_lid(strip(e["args"][0]), {ids_[0]}) and hirq.is_lid(strip(e["args"][1]), {ids_[1]}):
+                            ok = True
     ctx.check(ok, "FIXPOINT", "every derived (origin, fact) is inserted", "FIXPOINT|insert", "the Ok arm of the rule-application loop must call new_facts.insert(&origin, fact) unconditionally with the derived origin", f"{rb['file']}:{rb['line']}")
 
     # ---- PROVENANCE
